@@ -311,6 +311,21 @@ func ruleR15(c *Ctx) *RuleResult {
 							nClr++
 							clearedOrder = true
 						default:
+							// a callee that, by its effect summary, writes nothing through its parameters (Each, Any, …) does not
+							// mutate the list (what a callback does with the elements is R1b's business)
+							if cal := funcByKeyCached(p, ef.Leaf); cal != nil {
+								if sum := c.E().Sum[cal]; sum != nil && len(sum.FreshInto) == 0 && len(sum.Keep) == 0 {
+									pure := true
+									for w := range sum.W {
+										if w.Kind.String() != "iterator" { // writes to its own iterator's cursor are not writes to the list
+											pure = false
+										}
+									}
+									if pure {
+										continue
+									}
+								}
+							}
 							badA = append(badA, fmt.Sprintf("%s: %s mutates the order list (only Append / Remove(IndexOf) / Clear may)", p.FuncKey(fn), name))
 						}
 					}
@@ -495,7 +510,14 @@ func ruleR16(c *Ctx) *RuleResult {
 		}
 		// Put
 		if put := ms["Put"]; put != nil {
-			gc := c.GC(put)
+			// Put may be written on top of the map's own Remove: read it with the map's own methods expanded in place
+			own := map[*ssa.Function]bool{}
+			for _, m := range ms {
+				own[m] = true
+			}
+			gc := c.GCWith(put, BuildOpts{Tag: "bidi-put", Inline: func(cal *ssa.Function) bool {
+				return cal != put && (own[cal] || (cal.Origin() != nil && own[cal.Origin()]))
+			}})
 			var bad []string
 			for _, g := range gc.GCs {
 				bad = append(bad, checkBidiPut(g, fwd, inv)...)
@@ -629,6 +651,8 @@ func checkBidiPut(g *GC, fwd, inv string) []string {
 				evK = true
 			case len(args) == 2 && hasField(args[0], fwd) && lookedUpValue(args[1], byVal):
 				evV = true
+			case len(args) == 2 && hasField(args[0], fwd) && args[1].String() == "p:1":
+				// dropping the key's own forward entry before it is put again: no effect on the outcome
 			default:
 				bad = append(bad, "eviction with the wrong map or key: "+trunc(ef.String(), 220))
 			}
@@ -1840,4 +1864,21 @@ func ownIteratorFill(c *Ctx, ct *types.Named, gc *GCNF, LIST string, ev func(*Te
 		return Violated, fmt.Sprintf("slot %s is filled from list position %s: the two do not add up to Size()-1, so Values() is not the reverse of the list (= the removal order)", a.String(), b.String()), true
 	}
 	return Discharged, "result[it.Index()] = it.Value() for every step of the own iterator, whose Value() at index i reads list position Size()-1-i", true
+}
+
+var funcByKeyMap map[*Prog]map[string]*ssa.Function
+
+func funcByKeyCached(p *Prog, key string) *ssa.Function {
+	if funcByKeyMap == nil {
+		funcByKeyMap = map[*Prog]map[string]*ssa.Function{}
+	}
+	m := funcByKeyMap[p]
+	if m == nil {
+		m = map[string]*ssa.Function{}
+		for _, f := range p.Funcs {
+			m[p.FuncKey(f)] = f
+		}
+		funcByKeyMap[p] = m
+	}
+	return m[key]
 }
